@@ -46,9 +46,12 @@ int fk_open_count(void);
 int fk_nsockets(void);			/* socket() calls since reset */
 int fk_connect_order(int k);		/* address tag of the k-th connect() call, -1 if none */
 int fk_nconnects(void);
-int fk_fd_of_attempt(int idx);		/* descriptor handed out for the idx-th socket() call, -1 if it failed */
+int fk_fd_of_attempt(int idx);
+long long fk_attempt_start(int idx), fk_attempt_closed(int idx);	/* virtual time of socket() / close() of that attempt, -1 if not yet */
+int fk_attempt_pending_at_close(int idx);	/* the attempt was closed while the connection was still in progress */		/* descriptor handed out for the idx-th socket() call, -1 if it failed */
 int fk_recv_calls(int fd), fk_send_calls(int fd);
 int fk_send_broken(int fd);		/* a send error has been injected on this stream */
+int fk_in_end_deliveries(int fd);	/* recv calls answered with end-of-stream / the stream error */
 int fk_send_errors(int fd);		/* sends that were answered with an error */
 int fk_conn_established(int fd);
 int fk_polled(const struct pollfd * fds, int n, int fd, short ev);
@@ -67,6 +70,7 @@ struct pollfd;
 extern void (*fk_pre_poll_hook)(const struct pollfd * fds, int nfds, int timeout);	/* harness: state key + checks; may cut */
 extern void (*fk_post_poll_hook)(int nready);
 extern void (*fk_blocked_hook)(void);	/* about to block for ever: last chance to report a lost wake-up */
+extern void (*fk_horizon_hook)(void);	/* the poll horizon was reached: the code under test is spinning */
 extern int fk_npolls;
 
 #endif /* !FK_H_ */
